@@ -72,9 +72,129 @@ def run(chk) -> None:
     )
 
 
-def _r31d(chk, repo) -> None:
+def _r31d_keys(cfg, e, at, _depth=0):
+    """Every string ``e`` (a dict key) may be at statement ``at``, each with the loop bindings it is that
+    string under: ``[(text, {id(for-stmt): element index})]``.  Reads string constants, locals holding
+    them, loop variables over a literal tuple/list of strings (or of equal-length tuples of strings, by
+    position), f-strings and ``+`` concatenations of those.  ``None`` = not resolvable."""
+    if _depth > 6:
+        return None
+    if isinstance(e, ast.Constant):
+        return [(e.value, {})] if isinstance(e.value, str) else None
+    if isinstance(e, ast.Name):
+        out = []
+        for o in origins(cfg, e, at):
+            if o.kind == "expr" and not o.path and isinstance(o.expr, ast.AST) and not isinstance(o.expr, ast.Name):
+                r = _r31d_keys(cfg, o.expr, o.stmt, _depth + 1)
+                if r is None:
+                    return None
+                out += r
+            elif o.kind == "for" and isinstance(getattr(o.stmt, "iter", None), (ast.Tuple, ast.List)) and len(o.path) <= 1:
+                for j, x in enumerate(o.stmt.iter.elts):
+                    if o.path:
+                        if not (isinstance(x, (ast.Tuple, ast.List)) and isinstance(o.path[0], int) and o.path[0] < len(x.elts)):
+                            return None
+                        x = x.elts[o.path[0]]
+                    if not (isinstance(x, ast.Constant) and isinstance(x.value, str)):
+                        return None
+                    out.append((x.value, {id(o.stmt): j}))
+            else:
+                return None
+        return out or None
+    parts = None
+    if isinstance(e, ast.JoinedStr):
+        parts = []
+        for p in e.values:
+            if isinstance(p, ast.FormattedValue):
+                if p.conversion != -1 or p.format_spec is not None:
+                    return None
+                parts.append(p.value)
+            else:
+                parts.append(p)
+    elif isinstance(e, ast.BinOp) and isinstance(e.op, ast.Add):
+        parts = [e.left, e.right]
+    if parts is None:
+        return None
+    acc = [("", {})]
+    for p in parts:
+        r = _r31d_keys(cfg, p, at, _depth + 1)
+        if r is None:
+            return None
+        nxt = []
+        for t0, env0 in acc:
+            for t1, env1 in r:
+                if all(env0.get(k, v) == v for k, v in env1.items()):
+                    nxt.append((t0 + t1, {**env0, **env1}))
+        acc = nxt
+    return acc or None
+
+
+def _r31d_stores(td):
+    """(statement, key expression, value expression) of every keyed store in ``td``: ``d[k] = v`` (also
+    element-wise in a tuple assignment), ``d.update(k=v)`` / ``d.update({k: v})``, and a rebuilt dict
+    ``d = {**d, k: v}`` / ``d = dict(d, k=v)``."""
+    out = []
+    for st in walk_local(td):
+        if isinstance(st, ast.Assign):
+            for t in st.targets:
+                if isinstance(t, ast.Subscript):
+                    out.append((st, t.slice, st.value))
+                elif isinstance(t, (ast.Tuple, ast.List)) and isinstance(st.value, (ast.Tuple, ast.List)) and len(t.elts) == len(st.value.elts):
+                    for a, b in zip(t.elts, st.value.elts):
+                        if isinstance(a, ast.Subscript):
+                            out.append((st, a.slice, b))
+                elif isinstance(t, ast.Name):
+                    v = st.value
+                    if isinstance(v, ast.Dict) and any(k is None for k in v.keys):
+                        out += [(st, k, x) for k, x in zip(v.keys, v.values) if k is not None]
+                    elif isinstance(v, ast.Call) and call_name(v) == "dict" and v.args:
+                        out += [(st, ast.Constant(kw.arg), kw.value) for kw in v.keywords if kw.arg]
+        elif isinstance(st, ast.Expr) and isinstance(st.value, ast.Call) and isinstance(st.value.func, ast.Attribute) and st.value.func.attr == "update":
+            c = st.value
+            out += [(st, ast.Constant(kw.arg), kw.value) for kw in c.keywords if kw.arg]
+            for a in c.args:
+                if isinstance(a, ast.Dict):
+                    out += [(st, k, x) for k, x in zip(a.keys, a.values) if k is not None]
+    return out
+
+
+def _r31d_under(cfg, st) -> Set[str]:
+    """The edit types under which statement ``st`` runs, as far as tests of ``<x>.edit_type`` (or a local
+    holding it) against string constants say: positive tests intersect, negative ones exclude."""
     from ..idioms import conditions_at
 
+    def is_edit_type(e) -> bool:
+        if isinstance(e, ast.Attribute):
+            return e.attr == "edit_type"
+        if isinstance(e, ast.Name):
+            os_ = origins(cfg, e, cfg.stmt_of(e))
+            return bool(os_) and all(o.kind == "expr" and not o.path and isinstance(o.expr, ast.Attribute) and o.expr.attr == "edit_type" for o in os_)
+        return False
+
+    allowed: Optional[Set[str]] = None
+    excluded: Set[str] = set()
+    for e, pol in conditions_at(cfg, st):
+        if not (isinstance(e, ast.Compare) and len(e.ops) == 1):
+            continue
+        l, op, r = e.left, e.ops[0], e.comparators[0]
+        if isinstance(op, (ast.Eq, ast.NotEq)) and isinstance(l, ast.Constant) and is_edit_type(r):
+            l, r = r, l
+        if not is_edit_type(l):
+            continue
+        if isinstance(op, (ast.Eq, ast.NotEq)) and isinstance(r, ast.Constant) and isinstance(r.value, str):
+            vals, positive = {r.value}, isinstance(op, ast.Eq) == pol
+        elif isinstance(op, (ast.In, ast.NotIn)) and isinstance(r, (ast.Tuple, ast.List, ast.Set)) and all(isinstance(x, ast.Constant) and isinstance(x.value, str) for x in r.elts):
+            vals, positive = {x.value for x in r.elts}, isinstance(op, ast.In) == pol
+        else:
+            continue
+        if positive:
+            allowed = vals if allowed is None else allowed & vals
+        else:
+            excluded |= vals
+    return (allowed or set()) - excluded
+
+
+def _r31d(chk, repo) -> None:
     FIXF = "src/sqlfluff/core/rules/fix.py"
     td = repo.fn(FIXF, "LintFix.to_dict")
     maker = repo.fn(TBASE, "TemplatedFile.source_position_dict_from_slice")
@@ -86,46 +206,40 @@ def _r31d(chk, repo) -> None:
     if not sufs or sufs != {k.split("_", 1)[1] for k in keys if k.startswith("end_")}:
         raise AnalysisError("R31d: source_position_dict_from_slice no longer returns a literal dict of start_* / end_* keys (anchor refactored)")
     cfg = cfg_of(td)
-    # stores into the location dict, grouped by which create type they run under
-    cover: Dict[str, Set[str]] = {"create_before": set(), "create_after": set()}
-    wrong: List[Tuple[ast.AST, str]] = []
-    n = 0
-    for st in walk_local(td):
-        if not (isinstance(st, ast.Assign) and len(st.targets) == 1 and isinstance(st.targets[0], ast.Subscript)):
-            continue
-        t = st.targets[0]
-        conds = conditions_at(cfg, st)
-        under = set()
-        for e, pol in conds:
-            if pol and isinstance(e, ast.Compare) and len(e.ops) == 1 and norm(e.left).endswith("edit_type"):
-                c0 = e.comparators[0]
-                if isinstance(e.ops[0], ast.Eq) and isinstance(c0, ast.Constant):
-                    under.add(c0.value)
-                elif isinstance(e.ops[0], ast.In) and isinstance(c0, (ast.Tuple, ast.List, ast.Set)):
-                    under |= {x.value for x in c0.elts if isinstance(x, ast.Constant)}
-        under &= set(cover)
+    # keyed stores into the location dict, grouped by which create type they run under; what is read is
+    # the (destination key, source key) pairs of each store, however the keys and the copied value are spelled
+    want_pre = {"create_before": ("end", "start"), "create_after": ("start", "end")}
+    cover: Dict[str, Set[str]] = {u: set() for u in want_pre}
+    wrong: List[Tuple[ast.AST, str, str]] = []
+    counted = set()
+    for st, kexpr, vexpr in _r31d_stores(td):
+        under = _r31d_under(cfg, st) & set(cover)
         if not under:
             continue
-        n += 1
-        k = t.slice
-        got: Set[str] = set()
-        if isinstance(k, ast.Constant) and isinstance(k.value, str) and "_" in k.value:
-            pre, suf = k.value.split("_", 1)
-            got = {suf}
-            v = st.value
-            vk = v.slice.value if isinstance(v, ast.Subscript) and isinstance(v.slice, ast.Constant) and isinstance(v.slice.value, str) else None
-            want_pre = {"create_before": ("end", "start"), "create_after": ("start", "end")}
-            for u in under:
+        counted.add(id(st))
+        dks = _r31d_keys(cfg, kexpr, st)
+        if dks is None:
+            continue  # not a key this rule can name: it then covers nothing
+        v, v_at = vexpr, st
+        if isinstance(v, ast.Name):
+            os_ = origins(cfg, v, st)
+            if len(os_) == 1 and os_[0].kind == "expr" and not os_[0].path and isinstance(os_[0].expr, ast.AST):
+                v, v_at = os_[0].expr, os_[0].stmt
+        sks = _r31d_keys(cfg, v.slice, v_at) if isinstance(v, ast.Subscript) else None
+        for dk, denv in dks:
+            if "_" not in dk:
+                continue
+            pre, suf = dk.split("_", 1)
+            if pre not in ("start", "end"):
+                continue
+            srcs = None if sks is None else sorted({sk for sk, senv in sks if all(denv.get(k, x) == x for k, x in senv.items())})
+            for u in sorted(under):
                 d, s_ = want_pre[u]
-                if pre != d or vk != f"{s_}_{suf}":
-                    wrong.append((st, f"under {u}: `{short(st, 70)}` is not {d}_{suf} = {s_}_{suf}"))
-        elif isinstance(k, ast.JoinedStr) and k.values and isinstance(k.values[-1], ast.FormattedValue) and isinstance(k.values[-1].value, ast.Name):
-            for o in origins(cfg, k.values[-1].value, st):
-                if o.kind == "for" and isinstance(o.stmt.iter, (ast.Tuple, ast.List)):
-                    got |= {x.value for x in o.stmt.iter.elts if isinstance(x, ast.Constant) and isinstance(x.value, str)}
-        for u in under:
-            cover[u] |= got
-    chk.count("R31d.collapse_stores", n)
+                if pre == d and srcs == [f"{s_}_{suf}"]:
+                    cover[u].add(suf)
+                else:
+                    wrong.append((st, f"under {u}: `{short(st, 70)}` is not {d}_{suf} = {s_}_{suf}", dk))
+    chk.count("R31d.collapse_stores", len(counted))
     chk.floor("R31d.collapse_stores", 1)
     for u, got in sorted(cover.items()):
         missing = sorted(sufs - got)
@@ -135,8 +249,8 @@ def _r31d(chk, repo) -> None:
             "from one end and a column / file position from the other -- a (line, column) that is not the position of that file offset",
             detail=f"LintFix.to_dict: {u} collapses every coordinate",
         )
-    for st, why in wrong:
-        chk.fail("R31d", st, f"LintFix.to_dict: {why}: the collapsed end takes a coordinate that is not the same coordinate of the kept end", detail=f"LintFix.to_dict: collapse copies like to like ({short(st.targets[0], 40)})")
+    for st, why, dk in wrong:
+        chk.fail("R31d", st, f"LintFix.to_dict: {why}: the collapsed end takes a coordinate that is not the same coordinate of the kept end", detail=f"LintFix.to_dict: collapse copies like to like ({dk})")
 
 
 # ---------------------------------------------------------------------------
@@ -844,6 +958,92 @@ VARIANTS = [
         '        split = raw.split("\\n")\n        return (\n            line_no + len(split) - 1,\n            line_pos + len(raw) if len(split) == 1 else len(split[-1]) + 1,\n        )\n',
         '        head, nl, tail = raw.rpartition("\\n")\n        if not nl:\n            return line_no, line_pos + len(raw)\n        return line_no + raw.count("\\n"), len(tail) + 1\n',
         "QUIET", None, 'last line by rpartition, line count by count',
+    ),
+    # behaviour-preserving refactors: must stay quiet (R31d)
+    Variant(
+        'quiet-r31d-edit-type-local', "src/sqlfluff/core/rules/fix.py",
+        '        if self.edit_type == "create_before":\n            # If we\'re creating _before_, the end point isn\'t relevant.\n            # Make it the same as the start.\n            _src_loc["end_line_no"] = _src_loc["start_line_no"]\n            _src_loc["end_line_pos"] = _src_loc["start_line_pos"]\n            _src_loc["end_file_pos"] = _src_loc["start_file_pos"]\n        elif self.edit_type == "create_after":\n            # If we\'re creating _after_, the start point isn\'t relevant.\n            # Make it the same as the end.\n            _src_loc["start_line_no"] = _src_loc["end_line_no"]\n            _src_loc["start_line_pos"] = _src_loc["end_line_pos"]\n            _src_loc["start_file_pos"] = _src_loc["end_file_pos"]\n',
+        '        kind = self.edit_type\n        if kind == "create_before":\n            _src_loc["end_line_no"] = _src_loc["start_line_no"]\n            _src_loc["end_line_pos"] = _src_loc["start_line_pos"]\n            _src_loc["end_file_pos"] = _src_loc["start_file_pos"]\n        elif "create_after" == kind:\n            _src_loc["start_line_no"] = _src_loc["end_line_no"]\n            _src_loc["start_line_pos"] = _src_loc["end_line_pos"]\n            _src_loc["start_file_pos"] = _src_loc["end_file_pos"]\n',
+        "QUIET", None, 'edit type through a local, one comparison written constant-first',
+    ),
+    Variant(
+        'quiet-r31d-values-through-locals', "src/sqlfluff/core/rules/fix.py",
+        '        if self.edit_type == "create_before":\n            # If we\'re creating _before_, the end point isn\'t relevant.\n            # Make it the same as the start.\n            _src_loc["end_line_no"] = _src_loc["start_line_no"]\n            _src_loc["end_line_pos"] = _src_loc["start_line_pos"]\n            _src_loc["end_file_pos"] = _src_loc["start_file_pos"]\n',
+        '        if self.edit_type == "create_before":\n            start_line = _src_loc["start_line_no"]\n            start_col = _src_loc["start_line_pos"]\n            start_off = _src_loc["start_file_pos"]\n            _src_loc["end_file_pos"] = start_off\n            _src_loc["end_line_pos"] = start_col\n            _src_loc["end_line_no"] = start_line\n',
+        "QUIET", None, 'kept end read into locals first, stores reordered',
+    ),
+    Variant(
+        'quiet-r31d-tuple-assignment', "src/sqlfluff/core/rules/fix.py",
+        '        elif self.edit_type == "create_after":\n            # If we\'re creating _after_, the start point isn\'t relevant.\n            # Make it the same as the end.\n            _src_loc["start_line_no"] = _src_loc["end_line_no"]\n            _src_loc["start_line_pos"] = _src_loc["end_line_pos"]\n            _src_loc["start_file_pos"] = _src_loc["end_file_pos"]\n',
+        '        elif self.edit_type == "create_after":\n            _src_loc["start_line_no"], _src_loc["start_line_pos"], _src_loc["start_file_pos"] = (\n                _src_loc["end_line_no"],\n                _src_loc["end_line_pos"],\n                _src_loc["end_file_pos"],\n            )\n',
+        "QUIET", None, 'three stores as one tuple assignment',
+    ),
+    Variant(
+        'quiet-r31d-update-call', "src/sqlfluff/core/rules/fix.py",
+        '        if self.edit_type == "create_before":\n            # If we\'re creating _before_, the end point isn\'t relevant.\n            # Make it the same as the start.\n            _src_loc["end_line_no"] = _src_loc["start_line_no"]\n            _src_loc["end_line_pos"] = _src_loc["start_line_pos"]\n            _src_loc["end_file_pos"] = _src_loc["start_file_pos"]\n',
+        '        if self.edit_type == "create_before":\n            _src_loc.update(\n                end_line_no=_src_loc["start_line_no"],\n                end_line_pos=_src_loc["start_line_pos"],\n                end_file_pos=_src_loc["start_file_pos"],\n            )\n',
+        "QUIET", None, 'stores as one dict.update call',
+    ),
+    Variant(
+        'quiet-r31d-loop-over-coordinates', "src/sqlfluff/core/rules/fix.py",
+        '        if self.edit_type == "create_before":\n            # If we\'re creating _before_, the end point isn\'t relevant.\n            # Make it the same as the start.\n            _src_loc["end_line_no"] = _src_loc["start_line_no"]\n            _src_loc["end_line_pos"] = _src_loc["start_line_pos"]\n            _src_loc["end_file_pos"] = _src_loc["start_file_pos"]\n        elif self.edit_type == "create_after":\n            # If we\'re creating _after_, the start point isn\'t relevant.\n            # Make it the same as the end.\n            _src_loc["start_line_no"] = _src_loc["end_line_no"]\n            _src_loc["start_line_pos"] = _src_loc["end_line_pos"]\n            _src_loc["start_file_pos"] = _src_loc["end_file_pos"]\n',
+        '        if self.edit_type in ("create_before", "create_after"):\n            for coord in ("line_no", "line_pos", "file_pos"):\n                if self.edit_type == "create_before":\n                    _src_loc[f"end_{coord}"] = _src_loc[f"start_{coord}"]\n                else:\n                    _src_loc["start_" + coord] = _src_loc["end_" + coord]\n',
+        "QUIET", None, 'one loop over the coordinate names, f-string and concatenated keys, else arm of a nested test',
+    ),
+    Variant(
+        'quiet-r31d-rebuilt-dict', "src/sqlfluff/core/rules/fix.py",
+        '        elif self.edit_type == "create_after":\n            # If we\'re creating _after_, the start point isn\'t relevant.\n            # Make it the same as the end.\n            _src_loc["start_line_no"] = _src_loc["end_line_no"]\n            _src_loc["start_line_pos"] = _src_loc["end_line_pos"]\n            _src_loc["start_file_pos"] = _src_loc["end_file_pos"]\n',
+        '        elif self.edit_type == "create_after":\n            _src_loc = {\n                **_src_loc,\n                "start_line_no": _src_loc["end_line_no"],\n                "start_line_pos": _src_loc["end_line_pos"],\n                "start_file_pos": _src_loc["end_file_pos"],\n            }\n',
+        "QUIET", None, 'location dict rebuilt with the three keys overridden',
+    ),
+    Variant(
+        'quiet-r31d-pairs-loop', "src/sqlfluff/core/rules/fix.py",
+        '        if self.edit_type == "create_before":\n            # If we\'re creating _before_, the end point isn\'t relevant.\n            # Make it the same as the start.\n            _src_loc["end_line_no"] = _src_loc["start_line_no"]\n            _src_loc["end_line_pos"] = _src_loc["start_line_pos"]\n            _src_loc["end_file_pos"] = _src_loc["start_file_pos"]\n',
+        '        if self.edit_type == "create_before":\n            for dst, src in (("end_line_no", "start_line_no"), ("end_line_pos", "start_line_pos"), ("end_file_pos", "start_file_pos")):\n                _src_loc[dst] = _src_loc[src]\n',
+        "QUIET", None, 'loop over literal (destination, source) key pairs',
+    ),
+    # ---- breaking twins of the R31d spellings above
+    Variant(
+        'r31d-tuple-assignment-crossed', "src/sqlfluff/core/rules/fix.py",
+        '        elif self.edit_type == "create_after":\n            # If we\'re creating _after_, the start point isn\'t relevant.\n            # Make it the same as the end.\n            _src_loc["start_line_no"] = _src_loc["end_line_no"]\n            _src_loc["start_line_pos"] = _src_loc["end_line_pos"]\n            _src_loc["start_file_pos"] = _src_loc["end_file_pos"]\n',
+        '        elif self.edit_type == "create_after":\n            _src_loc["start_line_no"], _src_loc["start_line_pos"], _src_loc["start_file_pos"] = (\n                _src_loc["end_line_pos"],\n                _src_loc["end_line_no"],\n                _src_loc["end_file_pos"],\n            )\n',
+        "R31d", 'LintFix.to_dict', 'twin of quiet-r31d-tuple-assignment: line and column crossed',
+    ),
+    Variant(
+        'r31d-update-call-forgets-file-pos', "src/sqlfluff/core/rules/fix.py",
+        '        if self.edit_type == "create_before":\n            # If we\'re creating _before_, the end point isn\'t relevant.\n            # Make it the same as the start.\n            _src_loc["end_line_no"] = _src_loc["start_line_no"]\n            _src_loc["end_line_pos"] = _src_loc["start_line_pos"]\n            _src_loc["end_file_pos"] = _src_loc["start_file_pos"]\n',
+        '        if self.edit_type == "create_before":\n            _src_loc.update(\n                end_line_no=_src_loc["start_line_no"],\n                end_line_pos=_src_loc["start_line_pos"],\n            )\n',
+        "R31d", 'LintFix.to_dict', 'twin of quiet-r31d-update-call: one coordinate left at the other end',
+    ),
+    Variant(
+        'r31d-loop-copies-onto-itself', "src/sqlfluff/core/rules/fix.py",
+        '        if self.edit_type == "create_before":\n            # If we\'re creating _before_, the end point isn\'t relevant.\n            # Make it the same as the start.\n            _src_loc["end_line_no"] = _src_loc["start_line_no"]\n            _src_loc["end_line_pos"] = _src_loc["start_line_pos"]\n            _src_loc["end_file_pos"] = _src_loc["start_file_pos"]\n',
+        '        if self.edit_type == "create_before":\n            for coord in ("line_no", "line_pos", "file_pos"):\n                _src_loc[f"end_{coord}"] = _src_loc[f"end_{coord}"]\n',
+        "R31d", 'LintFix.to_dict', 'twin of quiet-r31d-loop-over-coordinates: nothing collapsed',
+    ),
+    Variant(
+        'r31d-loop-misses-a-coordinate', "src/sqlfluff/core/rules/fix.py",
+        '        if self.edit_type == "create_before":\n            # If we\'re creating _before_, the end point isn\'t relevant.\n            # Make it the same as the start.\n            _src_loc["end_line_no"] = _src_loc["start_line_no"]\n            _src_loc["end_line_pos"] = _src_loc["start_line_pos"]\n            _src_loc["end_file_pos"] = _src_loc["start_file_pos"]\n',
+        '        if self.edit_type == "create_before":\n            for coord in ("line_no", "line_pos"):\n                _src_loc[f"end_{coord}"] = _src_loc[f"start_{coord}"]\n',
+        "R31d", 'LintFix.to_dict', 'twin of quiet-r31d-loop-over-coordinates: file_pos not in the loop',
+    ),
+    Variant(
+        'r31d-local-holds-the-wrong-coordinate', "src/sqlfluff/core/rules/fix.py",
+        '        if self.edit_type == "create_before":\n            # If we\'re creating _before_, the end point isn\'t relevant.\n            # Make it the same as the start.\n            _src_loc["end_line_no"] = _src_loc["start_line_no"]\n            _src_loc["end_line_pos"] = _src_loc["start_line_pos"]\n            _src_loc["end_file_pos"] = _src_loc["start_file_pos"]\n',
+        '        if self.edit_type == "create_before":\n            start_line = _src_loc["start_line_no"]\n            start_col = _src_loc["start_line_pos"]\n            _src_loc["end_line_no"] = start_col\n            _src_loc["end_line_pos"] = start_line\n            _src_loc["end_file_pos"] = _src_loc["start_file_pos"]\n',
+        "R31d", 'LintFix.to_dict', 'twin of quiet-r31d-values-through-locals',
+    ),
+    Variant(
+        'r31d-pairs-loop-crossed', "src/sqlfluff/core/rules/fix.py",
+        '        if self.edit_type == "create_before":\n            # If we\'re creating _before_, the end point isn\'t relevant.\n            # Make it the same as the start.\n            _src_loc["end_line_no"] = _src_loc["start_line_no"]\n            _src_loc["end_line_pos"] = _src_loc["start_line_pos"]\n            _src_loc["end_file_pos"] = _src_loc["start_file_pos"]\n',
+        '        if self.edit_type == "create_before":\n            for dst, src in (("end_line_no", "start_line_pos"), ("end_line_pos", "start_line_no"), ("end_file_pos", "start_file_pos")):\n                _src_loc[dst] = _src_loc[src]\n',
+        "R31d", 'LintFix.to_dict', 'twin of quiet-r31d-pairs-loop',
+    ),
+    Variant(
+        'r31d-nested-else-also-covers-replace', "src/sqlfluff/core/rules/fix.py",
+        '        if self.edit_type == "create_before":\n            # If we\'re creating _before_, the end point isn\'t relevant.\n            # Make it the same as the start.\n            _src_loc["end_line_no"] = _src_loc["start_line_no"]\n            _src_loc["end_line_pos"] = _src_loc["start_line_pos"]\n            _src_loc["end_file_pos"] = _src_loc["start_file_pos"]\n        elif self.edit_type == "create_after":\n            # If we\'re creating _after_, the start point isn\'t relevant.\n            # Make it the same as the end.\n            _src_loc["start_line_no"] = _src_loc["end_line_no"]\n            _src_loc["start_line_pos"] = _src_loc["end_line_pos"]\n            _src_loc["start_file_pos"] = _src_loc["end_file_pos"]\n',
+        '        if self.edit_type == "create_before":\n            _src_loc["end_line_no"] = _src_loc["start_line_no"]\n            _src_loc["end_line_pos"] = _src_loc["start_line_pos"]\n            _src_loc["end_file_pos"] = _src_loc["start_file_pos"]\n        elif self.edit_type != "create_after":\n            pass\n        else:\n            _src_loc["start_line_no"] = _src_loc["end_line_no"]\n            _src_loc["start_file_pos"] = _src_loc["end_file_pos"]\n',
+        "R31d", 'LintFix.to_dict', 'create_after reached through a negated test, one coordinate dropped',
     ),
     # ---- breaking twins of the quiet spellings above ---------------------------------------------
     Variant(
